@@ -37,8 +37,8 @@ ASSUMPTIONS = ["a fault whose faulted record the strict reference reader classif
                "delivered records are judged"]
 
 MSG_FAULTS = ["mti_undecodable", "mti_nonnumeric", "unknown_bit", "bad_prefix", "bad_int", "bad_date", "bad_pds",
-              "icc_cut", "trailing_byte", "overlong_prefix", "short_header"]
-FRAME_FAULTS = ["cut_in_data", "cut_in_length", "oversize_length"]
+              "icc_cut", "trailing_byte", "overlong_prefix", "short_header", "bitmap_byte_ff"]
+FRAME_FAULTS = ["cut_in_data", "cut_in_length", "oversize_length", "cut_in_trailer"]
 
 
 def gen_file(seed_i, nmax=10):
@@ -103,6 +103,12 @@ def plan_fault(kind, k, rec, rd, enc, cfg, offsets, blocked):
         b = free[len(free) // 2]
         off = 4 + (b - 1) // 8
         return [{"record": k, "faults": [faults.sub(off, rec[off] | (0x80 >> ((b - 1) % 8)), kind)]}], []
+    if kind == "bitmap_byte_ff":
+        # every bit of one bitmap byte switched on (some of them have no configuration)
+        off = 4 + 1 + (k + len(rec)) % 15
+        if rec[off] == 0xFF:
+            return None
+        return [{"record": k, "faults": [faults.sub(off, 0xFF, kind)]}], []
     if kind == "bad_prefix":
         e = first(lambda e: e["prefix"])
         if not e:
@@ -171,6 +177,15 @@ def plan_fault(kind, k, rec, rd, enc, cfg, offsets, blocked):
         return [], [{"kind": "truncate", "at": to_file(o + 4 + max(0, (len(rec)) // 2)), "cls": kind}]
     if kind == "cut_in_length":
         return [], [{"kind": "truncate", "at": to_file(o + 2), "cls": kind}]
+    if kind == "cut_in_trailer":
+        # blocked files: the cut falls between the two pad bytes of a block that record k's data runs through
+        if not blocked:
+            return None
+        lo, hi = o + 4 + 1, o + 4 + len(rec)          # payload offsets strictly inside record k's data
+        b = -(-lo // 1012)                            # first payload edge at or after lo
+        if b * 1012 > hi or b == 0:
+            return None
+        return [], [{"kind": "truncate", "at": (b - 1) * 1014 + 1013, "cls": kind}]
     if kind == "oversize_length":
         # values above the maximum, including ones that look like something else: block filler (40404040),
         # blanks, the top bit, all ones
